@@ -313,7 +313,12 @@ def run(tier, rep):
         elif g is not None and g.get('dump_hash'):
             nontriv.add((feat[c['id']], 'ok', g['dump_hash']))
     # a timeout is a hang only if reproduced twice in a fresh, otherwise idle process
+    confirmed = {}
+    skipped_same_class = 0
     for c in timeouts:
+        if confirmed.get(feat[c['id']], 0) >= 3:
+            skipped_same_class += 1         # three hangs of this input class are already confirmed: the rest are not reproduced one by one (60 s each)
+            continue
         again = 0
         for _ in range(2):
             r2, _ = common.run_vrun('compile', [c], timeout_case=600 if c['id'].startswith('size:') else 30, workers=1)
@@ -325,6 +330,7 @@ def run(tier, rep):
                 judge(rep, c, g, feat[c['id']], counts)
                 break
         if again == 2:
+            confirmed[feat[c['id']]] = confirmed.get(feat[c['id']], 0) + 1
             rep.evaluations += 1
             rep.violation('C11|%s|hang' % feat[c['id']], {'case': {k: v for k, v in c.items() if k != 'src_hex' or len(v) < 4000}, 'vrun_mode': 'compile', 'src_preview': binascii.unhexlify(c['src_hex'])[:300].decode('utf-8', 'replace')})
     rep.nontrivial = nontriv
